@@ -41,27 +41,30 @@ theorem tie_proxy_safe (caps : Caps) (pods : List (Pod × Bool)) (sched : List N
 
 /-! ### arbitration facts (filter.go) -/
 
-/-- meaning of the extracted skip condition of getUnavailablePods on a model pod -/
-def evalSkipLeaf (q : PodA) (l : Bool × Nat) : Bool :=
-  let v := if l.2 = 1 then podActive q else if l.2 = 2 then q.ready else false
+/-- meaning of the extracted skip condition of getUnavailablePods, given the values of IsPodActive / IsPodReady -/
+def evalSkipLeaf (act rdy : Bool) (l : Bool × Nat) : Bool :=
+  let v := if l.2 = 1 then act else if l.2 = 2 then rdy else false
   if l.1 then !v else v
 
-def evalSkip (conj : Bool) (ls : List (Bool × Nat)) (q : PodA) : Bool :=
-  if conj then ls.all (evalSkipLeaf q) else ls.any (evalSkipLeaf q)
+def evalSkip (conj : Bool) (ls : List (Bool × Nat)) (act rdy : Bool) : Bool :=
+  if conj then ls.all (evalSkipLeaf act rdy) else ls.any (evalSkipLeaf act rdy)
 
-/-- getUnavailablePods: the `continue` condition in the source is `IsPodActive(pod) && IsPodReady(pod)` … -/
-theorem tie_unavailable_condition_shape :
-    C16.arbUnavailSkip = [(false, 1), (false, 2)] ∧ C16.arbUnavailSkipConj = true := by decide
+/-- getUnavailablePods: whatever the order / spelling of the `continue` condition in the source, it holds exactly when
+    the pod is active AND ready … -/
+theorem tie_unavailable_condition_sem :
+    ∀ act rdy : Bool, evalSkip C16.arbUnavailSkipConj C16.arbUnavailSkip act rdy = (act && rdy) := by decide
 
 /-- … which is the model's `podAvail` for every pod: a replica is unavailable iff it is not active or not ready -/
 theorem tie_unavailable_condition (q : PodA) :
-    evalSkip C16.arbUnavailSkipConj C16.arbUnavailSkip q = podAvail q := by
-  simp [tie_unavailable_condition_shape.1, tie_unavailable_condition_shape.2, evalSkip, evalSkipLeaf, podAvail]
+    evalSkip C16.arbUnavailSkipConj C16.arbUnavailSkip (podActive q) q.ready = podAvail q := by
+  rw [tie_unavailable_condition_sem]; rfl
 
-/-- initFilters: the retryable chain consists of the four limit filters of `retryableChecks`, each dropped exactly
-    when its gate (for the workload filter: both gates) is skipped — the model's `gateSkipped` tests -/
+/-- initFilters: the retryable chain consists (in any order) of the four limit filters of `retryableChecks`, each dropped
+    exactly when its gate (for the workload filter: both gates) is skipped — the model's `gateSkipped` tests -/
 theorem tie_retryable_chain :
-    C16.arbRetryableChain = [(5, [5]), (3, [3]), (4, [4]), (12, [2, 1])] := by decide
+    (C16.arbRetryableChain.length == 4 &&
+      [(5, [5]), (3, [3]), (4, [4])].all (fun e => C16.arbRetryableChain.contains e) &&
+      C16.arbRetryableChain.any (fun e => e.1 == 12 && e.2.length == 2 && e.2.contains 1 && e.2.contains 2)) = true := by decide
 
 /-- both pod filters start with `HaveEvictAnnotation(pod) ||`: the exemption that `exemptAdm` / `round_inv` state -/
 theorem tie_annotation_bypass :
